@@ -161,8 +161,20 @@ namespace
             // cfg[4]: bit 0 no signal callback registered (1 run in 6); bits 1..2 what the caller-supplied storage held before init
             p.cfg = {cap, H, r.chance(2, 3) ? 0 : (int64_t)r.range(1, 3), r.chance(1, 8) ? 0 : 1, (int64_t)((r.chance(1, 6) ? 1 : 0) | (r.below(4) << 1) | (r.chance(1, 4) ? 8 : 0))}; // bit 3: the execute callback switches the echo for some lines
             int n = (int)r.range(4, tier == THOROUGH ? 200 : 120);
-            if (r.chance(1, 40)) n *= 25; // a long history: what only accumulates over hundreds or thousands of operations
+            bool longrun = r.chance(1, 40); // a long session: what only accumulates over hundreds or thousands of keys
+            if (longrun) n *= 25;
             int style = (int)r.below(3); // 0 mixed, 1 edit-heavy, 2 history-heavy
+            if (longrun && r.chance(1, 2))
+            {
+                // ... beginning with a few hundred short command lines (more stored lines than an 8-bit counter counts)
+                int lines = (int)r.range(240, 560);
+                for (int i = 0; i < lines; i++)
+                {
+                    p.ops.push_back({K_PRINT, (int64_t)(i % 90), 0});
+                    if (i % 3 == 0) p.ops.push_back({K_PRINT, (int64_t)((i / 3) % 90), 0});
+                    p.ops.push_back({K_ENTER, (int64_t)r.below(4), 0});
+                }
+            }
             for (int i = 0; i < n; i++)
             {
                 unsigned c = (unsigned)r.below(100);
@@ -173,7 +185,7 @@ namespace
                 else if (style == 2) k = r.pick<int64_t>({K_ENTER, K_UP, K_UP, K_DOWN, K_PRINT, K_LEFT, K_CTRLC});
                 else k = (int64_t)r.below(K_NOISE);
                 if (big && r.chance(1, 6)) k = K_FILL;
-                if (r.chance(1, 70)) k = K_REINIT; // the owner restarts the session on the same object: a: new capacity, b: new history depth
+                if (r.chance(1, longrun ? 2000 : 70)) k = K_REINIT; // the owner restarts the session on the same object: a: new capacity, b: new history depth
                 // a: printable selector / enter variant / unknown byte ; b: noise byte
                 p.ops.push_back({k, r.chance(1, 8) ? (int64_t)(95 + r.below(128)) : (int64_t)r.below(95), (int64_t)r.below(256)});
             }
